@@ -116,23 +116,148 @@ Proof.
   unfold term_ptm. now rewrite (ptm_seq_no_ou C u1 u2 s0 H0), (ptm_seq_no_ou C u1 u2 s1 H1).
 Qed.
 
-(* the nonlocal basis at u = _u_from_thetavec decomposes the canonical gate, for all Weyl coordinates *)
-Lemma kak_core_keq :
-  meqb K3 (channel K3 nou (resolve (nonlocal_basis u_from_thetavec))) (ptm2 K3 [(c1 K3, Uweyl K3)]) = true.
-Proof. vm_cast_no_check (eq_refl true). Qed.
+(* ---------- substitution of expressions for the named quantities ---------- *)
+Fixpoint csubst (sg : nat -> cexpr) (e : cexpr) : cexpr :=
+  match e with
+  | CQ q => CQ q
+  | CV n => sg n
+  | CAdd a b => CAdd (csubst sg a) (csubst sg b)
+  | CMul a b => CMul (csubst sg a) (csubst sg b)
+  | COpp a => COpp (csubst sg a)
+  end.
+Definition env_subst (env : nat -> R) (sg : nat -> cexpr) : nat -> R := fun n => ceval (RCoef env) (sg n).
+Lemma ceval_csubst env sg e : ceval (RCoef env) (csubst sg e) = ceval (RCoef (env_subst env sg)) e.
+Proof. induction e as [q|n|a IHa b IHb|a IHa b IHb|a IHa]; simpl; try reflexivity; congruence. Qed.
 
+(* expressions over the quantities 0..2 only (all operation specifications are) *)
+Fixpoint cvars_ok (e : cexpr) : bool :=
+  match e with
+  | CQ _ => true
+  | CV n => Nat.leb n 2
+  | CAdd a b | CMul a b => cvars_ok a && cvars_ok b
+  | COpp a => cvars_ok a
+  end.
+Definition cx_ok (z : cxe) : bool := cvars_ok (fst z) && cvars_ok (snd z).
+Definition spec_ok (sp : opspec) : bool :=
+  match sp with
+  | SKraus ks => forallb (fun wk => cx_ok (fst wk) && forallb (forallb cx_ok) (snd wk)) ks
+  | SDirect m => forallb (forallb cvars_ok) m
+  | SEnv _ => true
+  end.
+Lemma op_spec_ok o : spec_ok (op_spec o) = true.
+Proof. destruct o as [| | | | | | | | | |a|a|a|a| | |k]; try reflexivity; destruct a; reflexivity. Qed.
+
+Section EnvExt.
+  Variables env env' : nat -> R.
+  Hypothesis Hagree : forall n, (n <= 2)%nat -> env n = env' n.
+  Lemma ceval_env_ext e : cvars_ok e = true -> ceval (RCoef env) e = ceval (RCoef env') e.
+  Proof.
+    induction e as [q|n|a IHa b IHb|a IHa b IHb|a IHa]; simpl; intros H; try reflexivity.
+    - apply Hagree. now apply Nat.leb_le.
+    - apply andb_prop in H as [H1 H2]. now rewrite IHa, IHb.
+    - apply andb_prop in H as [H1 H2]. now rewrite IHa, IHb.
+    - now rewrite IHa.
+  Qed.
+  Lemma cxeval_env_ext z : cx_ok z = true -> cxeval (RCoef env) z = cxeval (RCoef env') z.
+  Proof. intros H. apply andb_prop in H as [H1 H2]. unfold cxeval. now rewrite !ceval_env_ext. Qed.
+  Lemma ptm_ring_only n dinv P (ks : kraus (A:=R)) :
+    ptm_kraus (RCoef env) n dinv P ks = ptm_kraus (RCoef env') n dinv P ks.
+  Proof. reflexivity. Qed.
+  Lemma ptm_op_env_ext u o : ptm_op (RCoef env) u o = ptm_op (RCoef env') u o.
+  Proof.
+    unfold ptm_op. pose proof (op_spec_ok o) as Hok. destruct (op_spec o) as [ks|m|k]; simpl in Hok.
+    - unfold ptm1. change (paulis1 (RCoef env)) with (paulis1 (RCoef env')).
+      change (cofQ (RCoef env) (1 # 2)) with (cofQ (RCoef env') (1 # 2)).
+      rewrite ptm_ring_only. f_equal.
+      unfold kreval. apply map_ext_in. intros [w M] HIn. rewrite forallb_forall in Hok.
+      specialize (Hok _ HIn). simpl in Hok. apply andb_prop in Hok as [Hw HM]. simpl. f_equal.
+      + now apply cxeval_env_ext.
+      + unfold cmeval, mmap. apply map_ext_in. intros row Hrow. rewrite forallb_forall in HM.
+        specialize (HM _ Hrow). apply map_ext_in. intros z Hz. rewrite forallb_forall in HM.
+        now apply cxeval_env_ext, HM.
+    - unfold mmap. apply map_ext_in. intros row Hrow. rewrite forallb_forall in Hok.
+      specialize (Hok _ Hrow). apply map_ext_in. intros e He. rewrite forallb_forall in Hok.
+      now apply ceval_env_ext, Hok.
+    - reflexivity.
+  Qed.
+  Lemma ptm_seq_env_ext u sq : ptm_seq (RCoef env) u sq = ptm_seq (RCoef env') u sq.
+  Proof.
+    unfold ptm_seq. change (ident (RCoef env) 4) with (ident (RCoef env') 4).
+    generalize (ident (RCoef env') 4). induction sq as [|o sq IH]; intros M; [reflexivity|].
+    cbn [fold_left]. rewrite ptm_op_env_ext. apply IH.
+  Qed.
+End EnvExt.
+
+Definition subst_term (sg : nat -> cexpr) (t : term) : term := (csubst sg (fst (fst t)), snd (fst t), snd t).
+Lemma channel_subst env sg u b :
+  (forall n, (n <= 2)%nat -> sg n = CV n) ->
+  channel (RCoef env) u (map (subst_term sg) b) = channel (RCoef (env_subst env sg)) u b.
+Proof.
+  intros Hsg. unfold channel. rewrite map_map. f_equal. apply map_ext. intros [[c s0] s1].
+  unfold subst_term, term_ptm; cbn [fst snd]. rewrite ceval_csubst.
+  assert (Hag : forall n, (n <= 2)%nat -> env n = env_subst env sg n).
+  { intros n Hn. unfold env_subst. now rewrite (Hsg n Hn). }
+  now rewrite (ptm_seq_env_ext _ _ Hag u s0), (ptm_seq_env_ext _ _ Hag u s1).
+Qed.
+
+(* the 58-term theorem for any environment that gives r its value and is zero outside u's components *)
+Lemma nonlocal_exact_env (env : nat -> R) :
+  env 2%nat = / sqrt 2 ->
+  (forall n, n <> 2%nat -> ~ (10 <= n <= 17)%nat -> env n = 0) ->
+  channel (RCoef env) nou (resolve (nonlocal_basis uvars)) = ptm_unitary2 (RCoef env) (A_of_u uvars).
+Proof.
+  intros Hr Hz.
+  assert (H : CoefHomR KU (evalU (env 10%nat) (env 11%nat) (env 12%nat) (env 13%nat) (env 14%nat) (env 15%nat) (env 16%nat) (env 17%nat)) env).
+  { eapply CoefHomR_ext; [|apply KU_hom]. intros n.
+    do 18 (destruct n as [|n]; [cbn; first [reflexivity | symmetry; assumption | symmetry; apply Hz; lia]|]).
+    cbn. symmetry. apply Hz; lia. }
+  exact (reflect_channel KU _ _ H nou _ [(z1, A_of_u uvars)] nonlocal_keq).
+Qed.
+
+(* u := _u_from_thetavec as a substitution for the quantities 10..17 *)
+Definition sg_theta (n : nat) : cexpr :=
+  match n with
+  | 2 => CV 2
+  | 10 => fst (nth 0 u_from_thetavec z0) | 11 => snd (nth 0 u_from_thetavec z0)
+  | 12 => fst (nth 1 u_from_thetavec z0) | 13 => snd (nth 1 u_from_thetavec z0)
+  | 14 => fst (nth 2 u_from_thetavec z0) | 15 => snd (nth 2 u_from_thetavec z0)
+  | 16 => fst (nth 3 u_from_thetavec z0) | 17 => snd (nth 3 u_from_thetavec z0)
+  | 0 => CV 0 | 1 => CV 1
+  | _ => CQ 0
+  end.
+Lemma nonlocal_theta_subst :
+  resolve (nonlocal_basis u_from_thetavec) = map (subst_term sg_theta) (resolve (nonlocal_basis uvars)).
+Proof. vm_compute. reflexivity. Qed.
+Lemma A_theta_subst :
+  A_of_u u_from_thetavec = mmap (fun z => (csubst sg_theta (fst z), csubst sg_theta (snd z))) (A_of_u uvars).
+Proof. vm_compute. reflexivity. Qed.
+
+(* the nonlocal basis at u = _u_from_thetavec decomposes the canonical gate, for all Weyl coordinates *)
 Lemma kak_core : forall a b c : R,
   let C := RCoef (env3 a b c) in
   channel C nou (resolve (nonlocal_basis u_from_thetavec)) = ptm2 C [(c1 C, Uweyl C)].
 Proof.
-  intros a b c C. pose proof (K3_hom a b c) as H.
-  pose proof (CoefHomR_CHom _ _ _ H) as HC. pose proof (chh _ _ _ HC) as Hh.
-  rewrite <- (mmap_channel K3 _ _ H nou).
-  replace (ptm2 C [(c1 C, Uweyl C)]) with (mmap (eval3 a b c) (ptm2 K3 [(c1 K3, Uweyl K3)])).
-  - apply (meqb_sound K3 _ (ch_hom _ _ _ H)). exact kak_core_keq.
-  - rewrite (mmap_ptm2 _ _ _ HC). unfold kmap. cbn [map fst snd].
-    rewrite (mmap_Uweyl K3 _ _ H). unfold emap, c1. cbn [fst snd].
-    now rewrite (h1 _ _ _ Hh), (h0 _ _ _ Hh).
+  intros a b c C. unfold C. rewrite nonlocal_theta_subst.
+  rewrite channel_subst by (intros [|[|[|n]]] Hn; try reflexivity; lia).
+  set (env' := env_subst (env3 a b c) sg_theta).
+  rewrite (nonlocal_exact_env env').
+  - unfold ptm_unitary2, ptm2. rewrite <- (thetavec_exact a b c), A_theta_subst.
+    change (paulis2 (RCoef env')) with (paulis2 (RCoef (env3 a b c))).
+    change (cofQ (RCoef env') (1 # 4)) with (cofQ (RCoef (env3 a b c)) (1 # 4)).
+    rewrite (ptm_ring_only env' (env3 a b c)). f_equal.
+    unfold kreval. cbn [map fst snd].
+    assert (E1 : cxeval (RCoef env') z1 = c1 (RCoef (env3 a b c))).
+    { unfold cxeval, c1. cbn. destruct Q2R_consts as (q0 & q1 & _). now rewrite q0, q1. }
+    assert (E2 : cmeval (RCoef env') (A_of_u uvars)
+                 = cmeval (RCoef (env3 a b c))
+                     (mmap (fun z => (csubst sg_theta (fst z), csubst sg_theta (snd z))) (A_of_u uvars))).
+    { unfold cmeval, mmap. rewrite map_map. apply map_ext. intros row. rewrite map_map. apply map_ext.
+      intros z. unfold cxeval; cbn [fst snd]. now rewrite !ceval_csubst. }
+    now rewrite E1, E2.
+  - reflexivity.
+  - intros n Hn2 Hn. unfold env', env_subst.
+    do 18 (destruct n as [|n]; [first [lia | cbn; unfold zenv, Q2R; simpl; lra]|]).
+    cbn. unfold Q2R; simpl; lra.
 Qed.
 
 Lemma nonlocal_thetavec_ne : resolve (nonlocal_basis u_from_thetavec) <> [].
